@@ -2,6 +2,9 @@
 // the real code against (a) the frozen specification spec/registers.json
 // (independent oracle) and (b) the model regenerated from the source by
 // tools/go2coq (differential test of the translator, evaluated inside Coq).
+// sessions.go: sequences on one process — Fields() calls of all register types
+// interleaved with writes into the byte slices that were handed out — against
+// the slice-level model coq/Model/RegisterHeap.v (results are fresh values).
 package main
 
 import (
